@@ -1,3 +1,8 @@
 #!/bin/sh
-# placeholder until the extractor exists
-exit 0
+# Build the extractor and warm the dependency artefacts + fact base for /repo's current tree.
+# Offline; everything lives under /verif/.cache and /verif/extractor/target.
+set -e
+cd "$(dirname "$0")"
+export CARGO_NET_OFFLINE=true
+(cd extractor && cargo build --release --offline)
+python3 -m hw.extract
